@@ -244,44 +244,35 @@ macro_rules! map_text_text_h {
             #[kani::unwind(8)]
             fn $name() {
                 use serde::de::Deserializer as _;
-                const N: usize = 6;
+                // one entry; key = the text "k"; value = length byte <= 1 + one symbolic payload byte
+                const N: usize = 5;
                 let mut buf: [u8; N] = kani::any();
-                buf[0] = 1; // one entry
-                kani::assume(buf[1] < 0x80);
+                buf[0] = 1;
+                buf[1] = 1;
+                buf[2] = b'k';
+                kani::assume(buf[3] <= 1);
                 let cfg = cfg_any();
                 let unmetered = cfg.decoding_quota.is_none();
                 let mut de = mk_de(&buf[..], t_map($wk, $wv), t_map(ty(TypeInner::Text), ty(TypeInner::Text)), cfg);
                 let r = (&mut de).deserialize_map(OneEntry::<&str, &str>(std::marker::PhantomData));
                 let pos = de.input.position() as usize;
                 std::assert!(pos <= N, "cursor beyond the input");
+                let vl = buf[3] as usize;
+                let v_ok = std::str::from_utf8(&buf[4..4 + vl]).is_ok();
                 match &r {
                     Ok(Some((k, v))) => {
                         std::assert!($accept, "map<text,text> accepted a wire entry type the generic rules reject");
-                        match ref_text1(&buf, 1, N) {
-                            Some((ks, kl)) => {
-                                std::assert!(k.len() == kl, "key differs from the wire text");
-                                match ref_text1(&buf, ks + kl, N) {
-                                    Some((vs, vl)) => {
-                                        std::assert!(v.len() == vl && pos == vs + vl, "value differs from the wire text");
-                                    }
-                                    None => std::assert!(false, "malformed value text accepted"),
-                                }
-                            }
-                            None => std::assert!(false, "malformed key text accepted"),
-                        }
+                        std::assert!(k.len() == 1 && k.as_bytes()[0] == buf[2], "key differs from the wire text");
+                        std::assert!(v_ok && v.len() == vl && pos == 4 + vl, "value differs from the wire text");
                     }
                     Ok(None) => std::assert!(false, "entry count 1 produced no entry"),
                     Err(_) => {
                         if unmetered && $accept {
-                            let wf = match ref_text1(&buf, 1, N) {
-                                Some((ks, kl)) => ref_text1(&buf, ks + kl, N).is_some(),
-                                None => false,
-                            };
-                            std::assert!(!wf, "well-formed map entry rejected");
+                            std::assert!(!v_ok, "well-formed map entry rejected");
                         }
                     }
                 }
-                kani::cover!(r.is_ok() == $accept && buf[1] == 1 && buf[3] == 1 && unmetered, "outcome as the generic rules require");
+                kani::cover!(r.is_ok() == $accept && vl == 1 && v_ok && unmetered, "outcome as the generic rules require");
                 std::mem::forget(r);
                 std::mem::forget(de);
             }
@@ -299,23 +290,19 @@ de_harness! {
     #[kani::unwind(8)]
     fn c08_map_text_u8() {
         use serde::de::Deserializer as _;
-        const N: usize = 5;
-        let mut buf: [u8; N] = kani::any();
+        let mut buf: [u8; 4] = kani::any();
         buf[0] = 1;
-        kani::assume(buf[1] < 0x80);
+        buf[1] = 1;
+        buf[2] = b'k';
         let mut de = mk_de(&buf[..], t_map(ty(TypeInner::Text), ty(TypeInner::Nat8)),
                            t_map(ty(TypeInner::Text), ty(TypeInner::Nat8)), cfg_none());
         let r = (&mut de).deserialize_map(OneEntry::<&str, u8>(std::marker::PhantomData));
         let pos = de.input.position() as usize;
-        match (&r, ref_text1(&buf, 1, N)) {
-            (Ok(Some((k, v))), Some((ks, kl))) => {
-                std::assert!(k.len() == kl && ks + kl < N && *v == buf[ks + kl] && pos == ks + kl + 1, "entry differs from the wire bytes");
-            }
-            (Ok(_), _) => std::assert!(false, "malformed entry accepted"),
-            (Err(_), Some((ks, kl))) => std::assert!(ks + kl >= N, "well-formed entry rejected"),
-            (Err(_), None) => {}
+        match &r {
+            Ok(Some((k, v))) => std::assert!(k.len() == 1 && k.as_bytes()[0] == b'k' && *v == buf[3] && pos == 4, "entry differs from the wire bytes"),
+            _ => std::assert!(false, "well-formed map<text,nat8> entry rejected"),
         }
-        kani::cover!(matches!(&r, Ok(Some((k, _))) if k.len() == 2), "entry with a 2-byte key decoded");
+        kani::cover!(matches!(&r, Ok(Some((_, 200)))), "entry decoded");
         std::mem::forget(r);
         std::mem::forget(de);
     }
@@ -373,6 +360,77 @@ de_harness! {
         }
         kani::cover!(r.is_ok() && cnt == 2, "total size exactly at the limit accepted");
         kani::cover!(r.is_err() && cnt == 3, "over the total limit rejected");
+        std::mem::forget(r);
+        std::mem::forget(de);
+    }
+}
+
+// ------------------------------------------------------------------ maps with big-number keys / values
+// (the big-number fast-path flag of deserialize_map must apply to the value only)
+fn sleb1(b: u8) -> i128 { if b & 0x40 != 0 { (b as i128) - 128 } else { b as i128 } }
+de_harness_bnrec! {
+    #[kani::unwind(8)]
+    fn c08_map_int_nat() {
+        use serde::de::Deserializer as _;
+        // map<int,nat>, one entry, key and value one (S)LEB128 byte each
+        let mut buf: [u8; 3] = kani::any();
+        buf[0] = 1;
+        kani::assume(buf[1] < 0x80 && buf[2] < 0x80);
+        let mut de = mk_de(&buf[..], t_map(ty(TypeInner::Int), ty(TypeInner::Nat)), t_map(ty(TypeInner::Int), ty(TypeInner::Nat)), cfg_none());
+        let r = (&mut de).deserialize_map(OneEntry::<crate::Int, crate::Nat>(std::marker::PhantomData));
+        std::assert!(matches!(&r, Ok(Some(_))), "map<int,nat> failed to decode its own entry");
+        std::assert!(de.input.position() == 3, "entry not consumed exactly");
+        unsafe {
+            std::assert!(BN_LOG_N == 2, "expected exactly two numbers to be materialised");
+            std::assert!(BN_LOG[0] == sleb1(buf[1]), "map key (int) decoded to a different number than its SLEB128 bytes denote");
+            std::assert!(BN_LOG[1] == buf[2] as i128, "map value (nat) decoded to a different number than its LEB128 bytes denote");
+        }
+        kani::cover!(buf[1] >= 0x40, "negative key");
+        std::mem::forget(r);
+        std::mem::forget(de);
+    }
+}
+de_harness_bnrec! {
+    #[kani::unwind(8)]
+    fn c08_map_u32_int() {
+        use serde::de::Deserializer as _;
+        // map<nat32,int>, one entry
+        let mut buf: [u8; 6] = kani::any();
+        buf[0] = 1;
+        kani::assume(buf[5] < 0x80);
+        let mut de = mk_de(&buf[..], t_map(ty(TypeInner::Nat32), ty(TypeInner::Int)), t_map(ty(TypeInner::Nat32), ty(TypeInner::Int)), cfg_none());
+        let r = (&mut de).deserialize_map(OneEntry::<u32, crate::Int>(std::marker::PhantomData));
+        match &r {
+            Ok(Some((k, _))) => {
+                std::assert!(*k == u32::from_le_bytes([buf[1], buf[2], buf[3], buf[4]]), "key differs from the wire bytes");
+                unsafe { std::assert!(BN_LOG_N == 1 && BN_LOG[0] == sleb1(buf[5]), "map value (int) decoded to a different number"); }
+            }
+            _ => std::assert!(false, "map<nat32,int> failed to decode its own entry"),
+        }
+        kani::cover!(r.is_ok() && buf[5] >= 0x40, "negative value decoded");
+        std::mem::forget(r);
+        std::mem::forget(de);
+    }
+}
+de_harness_bnrec! {
+    #[kani::unwind(8)]
+    fn c08_map_text_nat() {
+        use serde::de::Deserializer as _;
+        // map<text,nat>: both fast paths at once
+        let mut buf: [u8; 4] = kani::any();
+        buf[0] = 1;
+        buf[1] = 1; // key: one byte of text
+        kani::assume(buf[2] < 0x80 && buf[3] < 0x80);
+        let mut de = mk_de(&buf[..], t_map(ty(TypeInner::Text), ty(TypeInner::Nat)), t_map(ty(TypeInner::Text), ty(TypeInner::Nat)), cfg_none());
+        let r = (&mut de).deserialize_map(OneEntry::<&str, crate::Nat>(std::marker::PhantomData));
+        match &r {
+            Ok(Some((k, _))) => {
+                std::assert!(k.len() == 1 && k.as_bytes()[0] == buf[2], "key differs from the wire text");
+                unsafe { std::assert!(BN_LOG_N == 1 && BN_LOG[0] == buf[3] as i128, "map value (nat) decoded to a different number"); }
+            }
+            _ => std::assert!(false, "map<text,nat> failed to decode its own entry"),
+        }
+        kani::cover!(r.is_ok(), "entry decoded");
         std::mem::forget(r);
         std::mem::forget(de);
     }
